@@ -171,6 +171,10 @@ class CSSCapture:
             to parse
         """
         # TODO: ownerNode should be set to the <link> node
+        # every document starts afresh, also with a CSSCapture used before
+        self._htmlparser.reset()
+        self._htmlparser.sheets = []
+        self._htmlparser.curtag = ''
         self._htmlparser.feed(doctext)
 
         for typ, data in self._htmlparser.sheets:
